@@ -184,6 +184,12 @@ func c14Cases() []c14Case {
 	out = append(out,
 		c14Case{desc: "style-object:kebab", tpl: `<p :style="{fontSize: '12px', color: c}">t</p>`, data: map[string]any{"c": "blue"}, want: map[string]string{"style": ""}, style: map[string]string{"font-size": "12px", "color": "blue"}},
 		c14Case{desc: "style-object:override", tpl: `<p style="color: red; margin: 0" :style="{color: c, backgroundColor: 'white'}">t</p>`, data: map[string]any{"c": "blue"}, want: map[string]string{"style": ""}, style: map[string]string{"color": "blue", "margin": "0", "background-color": "white"}},
+		// a static style that declares a property more than once (the CSS fallback idiom): what counts is the declaration that wins the cascade
+		c14Case{desc: "style-object:override-duplicated-static", tpl: `<p style="color: red; margin: 0; color: green" :style="{color: c}">t</p>`, data: map[string]any{"c": "blue"}, want: map[string]string{"style": ""}, style: map[string]string{"color": "blue", "margin": "0"}},
+		c14Case{desc: "style-object:override-fallback-pair", tpl: `<p style="background-color: #000; background-color: rgba(0,0,0,.5); margin: 0" :style="{backgroundColor: c}">t</p>`, data: map[string]any{"c": "black"}, want: map[string]string{"style": ""}, style: map[string]string{"background-color": "black", "margin": "0"}},
+		c14Case{desc: "style-bound-string-duplicated", tpl: `<p style="top: 0; top: 1px" :style="s">t</p>`, data: map[string]any{"s": "top: 2px; left: 0; left: 3px"}, want: map[string]string{"style": ""}, style: map[string]string{"top": "2px", "left": "3px"}},
+		c14Case{desc: "vshow-duplicated-display", tpl: `<p style="display: -webkit-box; display: flex; margin: 0" v-show="f">t</p>`, data: map[string]any{"f": false}, want: map[string]string{"style": ""}, style: map[string]string{"display": "none", "margin": "0"}},
+		c14Case{desc: "vshow-duplicated-display-shown", tpl: `<p style="display: -webkit-box; display: flex" v-show="f">t</p>`, data: map[string]any{"f": true}, want: map[string]string{"style": ""}, style: map[string]string{"display": "flex"}},
 		c14Case{desc: "style-object:hyphen-key", tpl: `<p :style="{'font-size': s}">t</p>`, data: map[string]any{"s": "9px"}, want: map[string]string{"style": ""}, style: map[string]string{"font-size": "9px"}},
 		c14Case{desc: "style-bound-string", tpl: `<p style="color: red" :style="s">t</p>`, data: map[string]any{"s": "color: green; top: 1px"}, want: map[string]string{"style": ""}, style: map[string]string{"color": "green", "top": "1px"}},
 		c14Case{desc: "style-bound-nonstring", tpl: `<p style="color: red" :style="n">t</p>`, data: map[string]any{"n": 5}, want: map[string]string{"style": ""}, style: map[string]string{"color": "red"}},
